@@ -221,12 +221,13 @@ PROPS["C20"] = {
     "kani": ["c20_colors"],
     "verus": ["c20sep"],
     "technique": "Kani/CBMC full-domain (bit-precise f32) harnesses on the table search",
-    "level_text": "Proved (Kani, every non-NaN f32): nearest(v, CUBE), nearest(v, GREYS) and nearest(v, [0,.33,.66,1]) return an arg-min of |v - table[j]| in f32 arithmetic; the tables are strictly increasing; "
+    "level_text": "Proved (Kani, every non-NaN f32): nearest(v, CUBE), nearest(v, GREYS) and nearest(v, [0,.33,.66,1]) return an arg-min of |v - table[j]| in f32 arithmetic; the tables are strictly increasing and every entry is the linear-light value of the xterm level it stands for (0,95,..,255; 8+10k) to within 1e-6 "
+                  "(expected values transcribed from the sRGB transfer function evaluated in double precision); "
                   "the grey level is monotone in the luminance. That per-channel nearest + nearest-to-mean + the final distance comparison give the global optimum over the 240 entries (separability), "
                   "the sRGB->linear conversion, Color::luma, LinColor::distance (SIMD) and the emitted index digits are NOT decided.",
     "level_note": "Partial: selection primitive only. color_sgr_encode writes through core::fmt and calls rasterize (powf, SSE dpps) which CBMC cannot enter.",
     "assumptions": [
-        "hand-typed linear-light tables equal LinColor::from of the 30 palette levels: assumed",
+        "the 30 expected table values were computed outside the verifier (powf) and transcribed into the harness; that rasterize's LinColor::from implements the same sRGB transfer function is assumed",
         "LinColor::distance is Euclidean in linear RGB and srgb->linear is monotone: assumed contracts of the rasterize dependency",
         "the separability lemmas idealise f32 as exact arithmetic (near-ties within one ulp are not decided) and are not linked mechanically to the body of color_sgr_encode (which needs rasterize + core::fmt)",
     ],
